@@ -54,6 +54,42 @@ theorem limb_add_refines_fiat51 {P Q : Ed} (x1 y1 z1 t1 x2 y2 z2 t2 : List Nat)
   exact Refinement.limb_add_refines (B := BF51) h x1 y1 z1 t1 x2 y2 z2 t2 hin hP hQ
 
 
+
+/-! ## decompression on the fiat u64 backend: bytes → limbs → point, against the specification -/
+
+theorem Edwards_decompress_step_1_refOkF51 : Sig.refOk BF51 CF51 (sig_Edwards_decompress_step_1 IF51) = true := by decide +kernel
+theorem Edwards_decompress_step_2_refOkF51 : Sig.refOk BF51 CF51 (sig_Edwards_decompress_step_2 IF51) = true := by decide +kernel
+
+/-- **fiat u64: limb-level decompression agrees with the specification.**  For any 32 bytes `b`: the fiat `from_bytes` wrapper does not
+panic; the limb-level `decompress::step_1` on its result does not panic (checked = release) and its validity flag is `[0]` when
+`Spec.decompress b = none`; when `Spec.decompress b = some p` the flag is `[1]` and the limb-level `step_2` returns tight limbs whose
+values are `(x : y : 1 : x·y)` of the specification's point — a valid representative of it. -/
+theorem limb_decompress_agrees_fiat51 (b : List UInt8) (hlen : b.length = 32) :
+    ∃ yL okL rL yL' oneL,
+      FiatField51.from_bytes.evalC (b.map UInt8.toNat) = some yL ∧ FiatField51.from_bytes.evalW (b.map UInt8.toNat) = yL ∧
+      AlgEdwards.decompress_step_1.run (limbOpsW BF51) [yL] = [okL, rL, yL', oneL] ∧
+      AlgEdwards.decompress_step_1.run (limbOps BF51) [some yL] = [some okL, some rL, some yL', some oneL] ∧
+      (Spec.decompress b = none → okL = [0]) ∧
+      (∀ p, Spec.decompress b = some p → okL = [1] ∧
+        ∃ X Y Z T,
+          AlgEdwards.decompress_step_2.run (limbOpsW BF51) [rL, yL', oneL, [if Spec.signBit b then 1 else 0]]
+            = [X, Y, Z, T] ∧
+          AlgEdwards.decompress_step_2.run (limbOps BF51)
+            [some rL, some yL', some oneL, some [if Spec.signBit b then 1 else 0]] = [some X, some Y, some Z, some T] ∧
+          EnvsIn [X, Y, Z, T] (EdwardsPoint IF51) ∧
+          v51 X = (p.x : Fp) ∧ v51 Y = (p.y : Fp) ∧ v51 Z = 1 ∧ v51 T = (p.x : Fp) * (p.y : Fp) ∧
+          ∃ h : Spec.onCurve p = true, RepExt (Dalek.Bridge.toEd p h) (v51 X) (v51 Y) (v51 Z) (v51 T)) := by
+  obtain ⟨yL, hC, hW, hb, _, hv⟩ := Dalek.Props.C01.FiatBytes51.from_bytes_spec' b hlen
+  have hy : EnvIn yL IF51.fe := hb
+  have hval : v51 yL = ((Spec.feFromBytes b : Nat) : Fp) := by
+    unfold v51; exact natCast_eq_of_mod (by rw [← hv]; exact (Nat.mod_mod _ _).symm)
+  have h1 : Refines BF51 v51 AlgEdwards.decompress_step_1 [IF51.fe] [inv_choice, IF51.fe, IF51.fe, IF51.fe] :=
+    Sig.refines_of_ok specF51 Edwards_decompress_step_1_refOkF51
+  have h2 : Refines BF51 v51 AlgEdwards.decompress_step_2 [IF51.fe, IF51.fe, IF51.fe, inv_choice]
+      [IF51.fe, IF51.fe, IF51.fe, IF51.fe] := Sig.refines_of_ok specF51 Edwards_decompress_step_2_refOkF51
+  obtain ⟨okL, rL, yL', oneL, r⟩ := Refinement.limb_decompress_agrees (B := BF51) specF51.choice h1 h2 b yL hy hval
+  exact ⟨yL, okL, rL, yL', oneL, hC, hW, r⟩
+
 /-! ## fiat u32 -/
 
 /-- fiat u32: every translated formula refines its field-level meaning, from the single invariant "tight" -/
@@ -87,6 +123,41 @@ theorem limb_add_refines_fiat26 {P Q : Ed} (x1 y1 z1 t1 x2 y2 z2 t2 : List Nat)
   have h : Refines BF26 v26 AlgEdwards.add (EdwardsPoint IF26 ++ EdwardsPoint IF26) (EdwardsPoint IF26) :=
     Sig.refines_of_ok specF26 Edwards_add_refOkF26
   exact Refinement.limb_add_refines (B := BF26) h x1 y1 z1 t1 x2 y2 z2 t2 hin hP hQ
+
+/-! ## decompression on the fiat u32 backend -/
+
+theorem Edwards_decompress_step_1_refOkF26 : Sig.refOk BF26 CF26 (sig_Edwards_decompress_step_1 IF26) = true := by decide +kernel
+theorem Edwards_decompress_step_2_refOkF26 : Sig.refOk BF26 CF26 (sig_Edwards_decompress_step_2 IF26) = true := by decide +kernel
+
+/-- **fiat u32: limb-level decompression agrees with the specification.**  For any 32 bytes `b`: the fiat `from_bytes` wrapper does not
+panic; the limb-level `decompress::step_1` on its result does not panic (checked = release) and its validity flag is `[0]` when
+`Spec.decompress b = none`; when `Spec.decompress b = some p` the flag is `[1]` and the limb-level `step_2` returns tight limbs whose
+values are `(x : y : 1 : x·y)` of the specification's point — a valid representative of it. -/
+theorem limb_decompress_agrees_fiat26 (b : List UInt8) (hlen : b.length = 32) :
+    ∃ yL okL rL yL' oneL,
+      FiatField26.from_bytes.evalC (b.map UInt8.toNat) = some yL ∧ FiatField26.from_bytes.evalW (b.map UInt8.toNat) = yL ∧
+      AlgEdwards.decompress_step_1.run (limbOpsW BF26) [yL] = [okL, rL, yL', oneL] ∧
+      AlgEdwards.decompress_step_1.run (limbOps BF26) [some yL] = [some okL, some rL, some yL', some oneL] ∧
+      (Spec.decompress b = none → okL = [0]) ∧
+      (∀ p, Spec.decompress b = some p → okL = [1] ∧
+        ∃ X Y Z T,
+          AlgEdwards.decompress_step_2.run (limbOpsW BF26) [rL, yL', oneL, [if Spec.signBit b then 1 else 0]]
+            = [X, Y, Z, T] ∧
+          AlgEdwards.decompress_step_2.run (limbOps BF26)
+            [some rL, some yL', some oneL, some [if Spec.signBit b then 1 else 0]] = [some X, some Y, some Z, some T] ∧
+          EnvsIn [X, Y, Z, T] (EdwardsPoint IF26) ∧
+          v26 X = (p.x : Fp) ∧ v26 Y = (p.y : Fp) ∧ v26 Z = 1 ∧ v26 T = (p.x : Fp) * (p.y : Fp) ∧
+          ∃ h : Spec.onCurve p = true, RepExt (Dalek.Bridge.toEd p h) (v26 X) (v26 Y) (v26 Z) (v26 T)) := by
+  obtain ⟨yL, hC, hW, hb, _, hv⟩ := Dalek.Props.C01.FiatBytes26.from_bytes_spec' b hlen
+  have hy : EnvIn yL IF26.fe := hb
+  have hval : v26 yL = ((Spec.feFromBytes b : Nat) : Fp) := by
+    unfold v26; exact natCast_eq_of_mod (by rw [← hv]; exact (Nat.mod_mod _ _).symm)
+  have h1 : Refines BF26 v26 AlgEdwards.decompress_step_1 [IF26.fe] [inv_choice, IF26.fe, IF26.fe, IF26.fe] :=
+    Sig.refines_of_ok specF26 Edwards_decompress_step_1_refOkF26
+  have h2 : Refines BF26 v26 AlgEdwards.decompress_step_2 [IF26.fe, IF26.fe, IF26.fe, inv_choice]
+      [IF26.fe, IF26.fe, IF26.fe, IF26.fe] := Sig.refines_of_ok specF26 Edwards_decompress_step_2_refOkF26
+  obtain ⟨okL, rL, yL', oneL, r⟩ := Refinement.limb_decompress_agrees (B := BF26) specF26.choice h1 h2 b yL hy hval
+  exact ⟨yL, okL, rL, yL', oneL, hC, hW, r⟩
 
 /-- non-vacuity: the table is not empty and the basepoint's tight limbs satisfy the `EdwardsPoint` invariant -/
 example : 0 < (sigs IF51).length := by decide
